@@ -205,7 +205,8 @@ pub struct Caps {
 pub fn legacy_ok(p: &P) -> bool {
     match p {
         P::Done | P::Event(_) | P::Notify(_) | P::Req(_) | P::Stream(_) | P::ReqReq(..) | P::Join(..)
-        | P::Select(..) | P::Burst(..) | P::SpawnAfter(..) | P::Trigger(..) => true,
+        | P::Select(..) | P::Burst(..) | P::SpawnAfter(..) => true,
+        P::Trigger(_, q) => legacy_ok(q),
         P::And(a, b) => legacy_ok(a) && legacy_ok(b),
         P::All(v) => v.iter().all(legacy_ok),
         _ => false,
@@ -311,10 +312,13 @@ pub fn run_legacy(p: &P, caps: &Caps) {
             let (a, b) = (ca.clone(), cb.clone());
             ca.spawn(async move {
                 let v = lreq(&a, &b, s, 0).await;
-                a.update_app(Event::got(s, v));
-                let a2 = a.clone();
+                let (a2, b2) = (a.clone(), b.clone());
                 a.spawn(async move {
-                    a2.update_app(Event::mark(m, 0));
+                    if is_b(m.label) {
+                        b2.notify_shell(OpB::make(m.label, v)).await;
+                    } else {
+                        a2.notify_shell(OpA::make(m.label, v)).await;
+                    }
                 });
             });
         }
